@@ -443,7 +443,9 @@ pub mod iter {
             CollectVec
         }
         fn consume_iter<I: Iterator<Item = T>>(self, iter: I) -> Vec<T> {
-            let mut v = Vec::new();
+            // a concrete initial capacity keeps the growth path of the first pushes out of the
+            // symbolic execution (the harnesses collect a handful of entries)
+            let mut v = Vec::with_capacity(8);
             for x in iter {
                 v.push(x)
             }
